@@ -224,6 +224,7 @@ theorem c06_model_ok_gen (O : Oracles) (a : ActionDecl) (kw : Kwargs) (H : Hyp O
 inductive HOp
   | call (kw : Kwargs)            -- `action.async_call(**kw)`
   | reinit (deviceUrl : Str)      -- `UpnpDevice.reinit(new_device)`: the description URL is replaced
+  | mutate (what : String)        -- the caller mutates a list / dict the public accessors RETURNED
 
 /-- The model of a history.  Request construction (`asyncCallSend`) is a **pure function of the
     current declaration — device description URL, service control URL, action, declared arguments —
@@ -235,6 +236,9 @@ def runHistory (O : Oracles) (anc : String → List String) (a : ActionDecl) :
   | [] => []
   | .call kw :: r => (a, kw, modelObs anc (asyncCallSend O crTable true a kw)) :: runHistory O anc a r
   | .reinit u :: r => runHistory O anc { a with deviceUrl := u } r
+  -- `in_arguments()` / `out_arguments()` / `async_call` hand out fresh objects: whatever the caller does
+  -- to them, the request stays a function of the action AS DECLARED
+  | .mutate _ :: r => runHistory O anc a r
 
 /-- **Every call of every history** satisfies the judge with the declaration in force at that call:
     an invalid assignment is refused before anything is sent *every time* it is tried, a valid one
@@ -255,6 +259,7 @@ theorem c06_history_ok (O : Oracles) (anc : String → List String)
       · intro H; exact c06_model_ok O anc a kw hanc1 hanc2 H
       · exact ih a e he
     | reinit u => exact ih _ e he
+    | mutate w => exact ih a e he
 
 /-- repeating an assignment gives the same observation, whatever happened in between (no re-init) -/
 theorem repeat_same (O : Oracles) (anc : String → List String) (a : ActionDecl) (kw : Kwargs)
